@@ -6,6 +6,9 @@ CONSTANTS
   ShallowChildDict = FALSE
   SharedPath = FALSE
   EmptyListPassThrough = TRUE
+  Mode = "copy"
+  HashCache = "none"
+  CopyViaCtor = FALSE
   Emit = FALSE
 INVARIANT CopyEqual
 INVARIANT Independence
